@@ -175,6 +175,16 @@ def _binpack_csv_path():
     return p
 
 
+_DEEP_LEGAL = {
+    ("Game2048", "b4"): (60, 700), ("Game2048", "b3"): (20, 200), ("Tetris", "r10c10t400"): (40, 395),
+    ("Tetris", "r6c5t400"): (20, 395), ("RobotWarehouse", "s1x3h3a2r1q2t500"): (50, 495),
+    ("Sokoban", "randomt120"): (20, 115), ("SlidingTilePuzzle", "g4m200t500d"): (50, 495),
+    ("RubiksCube", "n3s100t200"): (30, 195), ("LevelBasedForaging", "g8a3f3v3l3nGRp5t100"): (20, 96),
+    ("Maze", "r13c13tNone"): (30, 160), ("Cleaner", "r13c13a3tNone"): (20, 160), ("PacMan", "small200"): (40, 195),
+    ("Minesweeper", "r12c12m20"): (10, 120), ("Connector", "g12a48t50rw"): (10, 45), ("MMST", "n12e18a3k2t30"): (5, 28),
+}
+
+
 def _menus():
     """env -> {entry_id: (factory(**overrides) -> env, meta)}.  Built lazily (imports jumanji)."""
     E = _E()
@@ -532,6 +542,11 @@ def _menus():
         add("TSP", f"lat{n}{rw[0]}", lambda n=n, rw=rw, **k: E.TSP(
             generator=_tsp_lattice(n), reward_fn=TSDense() if rw == "dense" else TSSparse()),
             cities=n, reward=rw, gen="lattice", harness_gen=True)
+    # deep starts for long-horizon entries: every third case begins after a scripted prefix of pseudo-random
+    # masked-in actions (policy legal_hash), steps drawn from the given range
+    for (env, eid), rng in _DEEP_LEGAL.items():
+        f, meta_ = m[env][eid]
+        m[env][eid] = (f, dict(meta_, deep={"policy": "legal_hash", "steps": rng}))
     return m
 
 
@@ -736,7 +751,7 @@ class Bundle:
         return a
 
 
-def _snake_hamilton(env, state):
+def _snake_hamilton(env, state, ts=None, i=0, salt=0):
     """Next move along a fixed Hamiltonian cycle of the board (num_rows even): row 0 left to right, the other rows
     zig-zag over columns 1.., the last row runs back to column 0 and column 0 leads up.  A snake that follows it
     never hits a wall or itself.  Actions: 0 up, 1 right, 2 down, 3 left."""
@@ -750,7 +765,40 @@ def _snake_hamilton(env, state):
     return jnp.where(c == 0, col0, jnp.where(r % 2 == 0, even, odd)).astype(jnp.int32)
 
 
+def _legal_hash_policy(layout, act_dtype, amin=None, amax=None):
+    """Generic scripted policy: a pseudo-random masked-in action, a pure function of (mask, step index, salt) - the
+    salt comes from the Hypothesis-drawn plan.  Used to fast-forward long-horizon environments (late 2048 boards,
+    high Tetris stacks, long RobotWarehouse / PacMan / Sokoban episodes) before the monitors take over."""
+    def pol(env, state, ts, i, salt):
+        import jax
+        import jax.numpy as jnp
+
+        key = jax.random.fold_in(jax.random.PRNGKey(salt), i)
+        if layout is None:   # no action mask (Sokoban): any in-spec action
+            return jax.random.randint(key, amin.shape, jnp.asarray(amin), jnp.asarray(amax) + 1).astype(act_dtype)
+        mask = ts.observation.action_mask.astype(bool)
+        if layout == "agents":
+            logits = jnp.where(mask, 0.0, -1e9)
+            keys = jax.random.split(key, mask.shape[0])
+            pick = jax.vmap(lambda k, l: jax.random.categorical(k, l))(keys, logits)
+            return pick.astype(act_dtype)
+        flat = mask.reshape(-1)
+        idx = jax.random.categorical(key, jnp.where(flat, 0.0, -1e9))
+        if layout == "flat":
+            return idx.astype(act_dtype)
+        return jnp.stack(jnp.unravel_index(idx, mask.shape)).astype(act_dtype)
+
+    return pol
+
+
 DEEP_POLICIES = {"Snake": {"hamilton": _snake_hamilton}}
+
+
+def deep_policy(b, name):
+    if name == "legal_hash":
+        return _legal_hash_policy(b.layout, b.act_dtype, b.amin, b.amax)
+    return DEEP_POLICIES[b.name][name]
+
 
 _BUNDLES: dict = {}
 
